@@ -168,3 +168,15 @@ def predicate(op, il, mres, tag):
 
 def matches_known(k, op, il, mres, tag):
     return False
+
+
+# --- RPM ops (audit attributes rpm.nevra / rpm.md5 / rpm.sha1 against the stream actually signed; checklib/models/rpm.py): a further
+# correspondence under the pseudo-property C06RPM; theorems Relic.Props.C06.rpm_audit_nevra_of_stream, rpm_audit_md5_unverified
+import composite as _composite_rpm, rpm as _rpm
+_run_c06_rpm = run
+
+
+def run(ctx):
+    own, none = _composite_rpm.split_replay(ctx, ["rpm"])
+    cov, f, k = ({"evaluations": 0, "distinct_nontrivial": 0}, [], []) if none else _run_c06_rpm(own)
+    return _rpm.second(ctx, "C06", cov, f, k)
